@@ -198,6 +198,34 @@ def check_helpers(case, ctx):
     ctx.check(len(back) == nu and all(_pts_equal(a, b) for a, b in zip(back, grid)), "generate-2d-inverse", "generate_ctrlpts2d_weights(generate_ctrlptsw2d(x)) != x")
     again = compatibility.generate_ctrlptsw2d(back)
     ctx.check(all(_pts_equal(a, b) for a, b in zip(again, g2)), "generate-2d-inverse-2", "generate_ctrlptsw2d(generate_ctrlpts2d_weights(x)) != x")
+    # the file forms of the 2-D conversions (one line per u row, points separated by ';', coordinates by ','): same results
+    import os
+    import tempfile
+
+    def _write(path, net):
+        with open(path, "w") as fp:
+            for row in net:
+                fp.write(";".join(",".join(repr(float(c)) for c in pt) for pt in row) + "\n")
+
+    def _read(path):
+        with open(path) as fp:
+            return [[[float(c) for c in pt.split(",")] for pt in line.strip().split(";")] for line in fp if line.strip()]
+    with tempfile.TemporaryDirectory() as tmp:
+        f_in, f_w, f_back, f_flip = (os.path.join(tmp, n) for n in ("in.txt", "w.txt", "back.txt", "flip.txt"))
+        _write(f_in, grid)
+        compatibility.generate_ctrlptsw2d_file(f_in, f_w)
+        got_w = _read(f_w)
+        ctx.check(len(got_w) == nu and all(len(r) == nv for r in got_w) and all(_pts_equal(a, b) for a, b in zip(got_w, g2)), "generate_ctrlptsw2d_file",
+                  "generate_ctrlptsw2d_file wrote %r, generate_ctrlptsw2d gives %r" % (got_w, g2))
+        _write(f_w, g2)
+        compatibility.generate_ctrlpts2d_weights_file(f_w, f_back)
+        got_b = _read(f_back)
+        ctx.check(len(got_b) == nu and all(len(r) == nv for r in got_b) and all(_pts_equal(a, b) for a, b in zip(got_b, back)), "generate_ctrlpts2d_weights_file",
+                  "generate_ctrlpts2d_weights_file wrote %r, generate_ctrlpts2d_weights gives %r" % (got_b, back))
+        compatibility.flip_ctrlpts2d_file(f_in, f_flip)
+        got_f = _read(f_flip)
+        want_f = [[grid[u][v] for u in range(nu)] for v in range(nv)]
+        ctx.check(got_f == want_f, "flip_ctrlpts2d_file", "flip_ctrlpts2d_file wrote %r for the net %r" % (got_f, grid))
 
 
 # ------------------------------------------------------------------------------------------------ weighted grid
@@ -268,6 +296,10 @@ def check_grid(case, ctx):
 @st.composite
 def _convert_cases(draw, tier):
     d = draw(gen.spline(max_p=3, max_extra=3, vol_max_p=2, vol_max_extra=1, unclamped="maybe"))
+    if draw(st.integers(0, 5)) == 0:
+        # a shape in 4-space (the spatial dimension is whatever the control points have)
+        d["P"] = [q + [q[0] * 0.5 - q[1]] * (4 - len(q)) for q in d["P"]]
+        d["dim"] = 4
     return {"defn": d, "scale": draw(st.sampled_from([0.25, 0.5, 2.0, 3.0, 8.0, 2.0 ** -40, 2.0 ** 30, 2.0 ** -20])), "unit": draw(st.booleans())}
 
 
@@ -279,6 +311,7 @@ def check_convert(case, ctx):
     R = build.exact_from(d, obj)
     lat = shape.obj_lattice(obj)
     ctx.label("kind:" + d["kind"])
+    ctx.label("4-D", d["dim"] == 4)
     if not d["rational"]:
         ctx.nt(True, "bspline->nurbs->bspline")
         n = convert.bspline_to_nurbs(obj)
